@@ -102,10 +102,11 @@ ENTRIES: Dict[str, Entry] = {
         roots=["spil.sid.read.finder.Finder.find", "spil.sid.read.finder.Finder.find_one", "spil.sid.read.finder.Finder.exists",
                "spil.sid.sid.TypedSid.match", "spil.sid.read.finders.find_list.FindInList.__init__"],
         self_class="spil.sid.read.finders.find_list.FindInList",
+        # C08 quantifies over searches without '>': the sorted ('>') branch belongs to C09, which states no error contract
+        blocked=["spil.sid.read.finders.find_glob.FindByGlob.sorted_search"],
         allowed=["SpilException"],
         must_reach=["spil.sid.read.finders.find_list.FindInList.star_search", "spil.sid.read.finders.find_list.glob2re",
-                    "spil.sid.read.finders.find_glob.FindByGlob.sorted_search", "spil.sid.read.tools.unfold_search",
-                    "spil.sid.read.util.first"],
+                    "spil.sid.read.tools.unfold_search", "spil.sid.read.util.first"],
         min_constructs=15,
     ),
     "FindInPaths.scan": Entry(
